@@ -718,6 +718,7 @@ func poolRun(args []string) int {
 	fs.Parse(args)
 	r := rand.New(rand.NewSource(*seed))
 	st := &poolStats{shapes: map[string]bool{}, dist: map[string]map[string]int{}}
+	r2 := rand.New(rand.NewSource(*seed ^ 0x5eed12)) // second scenario set (pool2.go): its own generator
 	t0 := time.Now()
 	for k := 0; k < *rounds; k++ {
 		poolBlocking(r, 0, st)
@@ -744,6 +745,7 @@ func poolRun(args []string) int {
 			poolRestartOverlap(r, 2, st)
 			poolStaleWorker(*stale, st)
 		}
+		poolSecondSet(r2, k, st)
 	}
 	leftover := 0
 	for i := 0; i < 300; i++ { // every scheduler was stopped and waited for: nothing of package quartz may be left
@@ -760,7 +762,7 @@ func poolRun(args []string) int {
 		"distribution": st.dist, "violations": viol, "samples": st.samples, "harness_failures": st.failures,
 		"leftover_quartz_goroutines": leftover, "wall_ms": time.Since(t0).Milliseconds()})
 	fmt.Printf("pool: %d executions observed in %d scenario runs (%d distinct), %d property violations, %d harness failures, %d ms\n",
-		st.evals, *rounds*10+3, len(st.shapes), len(viol), len(st.failures), time.Since(t0).Milliseconds())
+		st.evals, *rounds*16+4, len(st.shapes), len(viol), len(st.failures), time.Since(t0).Milliseconds())
 	if len(st.failures) > 0 {
 		fmt.Println("pool: harness failures:", st.failures)
 		real := 0
